@@ -471,6 +471,7 @@ def body_sequence(case):
     objs = [GeoCoords(*b) for b in model]
     cls, edited_then_used = set(), 0
     dirty = [False] * len(objs)
+    held = []
     for n, st_ in enumerate(case["steps"]):
         op = st_["op"]
         if op == "edit":
@@ -505,15 +506,20 @@ def body_sequence(case):
             need_m("enu-to-ecef-wrong", ecef_of(ENUCoords(*want).toECEFCoords(o), "ENUCoords.toECEFCoords"), ref_ecef(*p), TOL_M, what)
         elif op == "base-origin":
             need_m("base-not-origin", enu_of(GeoCoords(*b).toENUCoords(o), "GeoCoords.toENUCoords"), (0.0, 0.0, 0.0), TOL_FORM, what)
-        elif op == "track":
+        elif op in ("track", "track-hold"):
             pts = [p] + [tuple(q) for q in st_.get("more", [])]
             tr = _track(pts)
             tr.toENUCoords(o)
             got = _positions(tr, ENUCoords, what)
             _pointwise(got, [ref_enu(q, b) for q in pts], TOL_M, what)
             _base_is(tr, b, what)
-            tr.toGeoCoords()
-            _roundtrip(tr, pts, what + " and back")
+            if op == "track-hold":
+                # the local track is kept while the program goes on (and may edit the base OBJECT it handed over): the
+                # track "records the base it used", so converting it back at the end must still return the input
+                held.append((tr, pts, b, what))
+            else:
+                tr.toGeoCoords()
+                _roundtrip(tr, pts, what + " and back")
         else:
             raise ValueError(op)
         got_b = geo_of(o, "base object")
@@ -522,6 +528,12 @@ def body_sequence(case):
         cls.add("op-" + op)
         if dirty[k]:
             edited_then_used += 1
+    for tr, pts, b, what in held:
+        later = " (kept until the end of the history; base object #s %s edited meanwhile)" % [k for k, d in enumerate(dirty) if d]
+        _base_is(tr, b, what + later)
+        tr.toGeoCoords()
+        _roundtrip(tr, pts, what + later + " and back", key="track-roundtrip-after-history")
+        cls.add("held-track-converted-back-at-the-end")
     if edited_then_used:
         cls.add("conversion-after-in-place-edit")
     return {"nt": edited_then_used > 0, "cls": sorted(cls)}
@@ -538,9 +550,9 @@ def strat_sequence():
                 out.append({"op": "edit", "b": k, "new": _mk_geo(raw), "how": how})
             else:
                 p = _near(bases[k], o) if m else _mk_geo(raw)
-                op = ["geo-enu", "ecef-enu", "enu-geo", "enu-ecef", "base-origin", "track", "geo-enu", "track"][kind - 2]
+                op = ["geo-enu", "ecef-enu", "enu-geo", "enu-ecef", "base-origin", "track", "track-hold", "track"][kind - 2]
                 stp = {"op": op, "b": k, "p": p}
-                if op == "track":
+                if op in ("track", "track-hold"):
                     stp["more"] = [_near(p, oo) for oo in extra]
                 out.append(stp)
         return {"bases": bases, "steps": out}
